@@ -573,6 +573,64 @@ var shadowDepth int
 var lastShadowSink []byte
 
 // implR: R <conc> <blob> <chunk> <failAt> <eofWithData> ops…   (+ `E:<blob>` expect exactly, `P:<blob>` expect strict prefix & error)
+// readerShadow > 0 while implR runs a comparison session on a new Reader (no oracle requests, no extra checks)
+var readerShadow int
+
+// freshReaderTail: C17 "Reset makes the object indistinguishable from a new one with the same options": the
+// calls that follow the last Reset of the session are repeated on a NEW Reader (same concurrency, same source
+// script) and must give the same results.  Returns "" when the session has no Reset or cannot be compared.
+func freshReaderTail(f []string, res []string) string {
+	conc := atoi(f[1])
+	lastR, ri := -1, 0
+	var resIdx []int // index into res of each real op
+	ops := f[6:]
+	for i, op := range ops {
+		if strings.HasPrefix(op, "E:") || strings.HasPrefix(op, "P:") || strings.HasPrefix(op, "X:") || strings.HasPrefix(op, "z:") {
+			resIdx = append(resIdx, -1)
+			continue
+		}
+		resIdx = append(resIdx, ri)
+		if strings.HasPrefix(op, "R:") {
+			lastR = i
+		}
+		ri++
+	}
+	if lastR < 0 || ri != len(res) {
+		return ""
+	}
+	for i := 0; i < lastR; i++ {
+		if strings.HasPrefix(ops[i], "A:") && resIdx[i] >= 0 {
+			if res[resIdx[i]] != "ok" {
+				return "" // a refused Apply may have applied some of its options: the table is not exact
+			}
+			_, kv := parseOptsGo(ops[i][2:])
+			if n, ok := kv["conc"]; ok {
+				conc = n
+			}
+		}
+	}
+	var tail, want []string
+	for i := lastR + 1; i < len(ops); i++ {
+		if resIdx[i] >= 0 {
+			tail = append(tail, ops[i])
+			want = append(want, res[resIdx[i]])
+		}
+	}
+	if len(tail) == 0 {
+		return ""
+	}
+	f2 := append([]string{"R", fmt.Sprint(conc), strings.TrimPrefix(ops[lastR], "R:"), f[3], f[4], f[5]}, tail...)
+	readerShadow++
+	var o2 oracleSink
+	line := implR(f2, &o2)
+	readerShadow--
+	got := strings.Fields(strings.Split(line, " ; ")[0])
+	if strings.Join(got, " ") != strings.Join(want, " ") {
+		return "DIFFERS-FROM-NEW-READER"
+	}
+	return ""
+}
+
 func implR(f []string, o *oracleSink) string {
 	gBase := beginConc()
 	conc := atoi(f[1])
@@ -761,6 +819,11 @@ func implR(f []string, o *oracleSink) string {
 	}
 	if !hung {
 		if d := poolDiscipline(); d != "" {
+			notes = append(notes, d)
+		}
+	}
+	if !hung && readerShadow == 0 {
+		if d := freshReaderTail(f, res); d != "" {
 			notes = append(notes, d)
 		}
 	}
